@@ -117,6 +117,12 @@ def _pick_font(r):
             k = r.choice(keys)
             if _has_fvar(k):
                 return k
+    if r.random() < 0.3:
+        # a table kind first, a font that has it second: rare kinds (COLR, EBLC, Silf, AAT, SVG ...) get
+        # as many histories as the ubiquitous ones
+        bt = corpus.keys_by_tag()
+        if bt:
+            return r.choice(bt[r.choice(sorted(bt))])
     # binaries and TTX-derived fonts with equal weight per file
     for _ in range(40):
         k = r.choice(keys)
@@ -676,7 +682,24 @@ def _unordered(xml):
 
         _INDEX_ATTR = re.compile(r' index="\d+"')
         _EBLC_RANGE = re.compile(r'(<eblc_index_sub_table_\d+ .*?) firstGlyphIndex="\d+" lastGlyphIndex="\d+"|<(indexSubTableArrayOffset|indexTablesSize|numberOfIndexSubTables|startGlyphIndex|endGlyphIndex) value="\d+"/>')
-    return sorted(_EBLC_RANGE.sub(lambda m: m.group(1) or "<%s/>" % m.group(2), _INDEX_ATTR.sub("", ln.strip())) for ln in xml.splitlines() if ln.strip())
+    ordered, names = [], []
+    in_name = False
+    for ln in xml.splitlines():
+        ln = ln.strip()
+        if not ln:
+            continue
+        if ln == "<name>":
+            in_name = True
+        ln2 = _EBLC_RANGE.sub(lambda m: m.group(1) or "<%s/>" % m.group(2), ln)
+        if in_name:
+            names.append(_INDEX_ATTR.sub("", ln2))
+        else:
+            ordered.append(ln2)
+        if ln == "</name>":
+            in_name = False
+    # only the name table's records are compared as a multiset (name.compile sorts them in place, which
+    # no later operation can observe); everything else must also keep its order
+    return ordered, sorted(names)
 
 
 def _dump_all(font):
